@@ -230,7 +230,11 @@ def _make_cfg(prop, seed, tier='quick', idx=0):
     # open known findings: most runs steer around the trigger so that
     # exploration continues past it; the rest confirm it is still the same
     openf = [x for x in os.environ.get('DDSIM_OPEN_FINDINGS', '').split(',') if x]
-    cfg['avoid'] = [x for x in openf if r.random() < 0.9]
+    # (the 10 % that confirm a finding are only needed in the check of the
+    # property it belongs to; known_findings ids are named <...>, their
+    # property is looked up by the master and passed as id@property)
+    cfg['avoid'] = [x.split('@')[0] for x in openf
+                    if r.random() < 0.9 or (x.split('@') + [prop])[1] != prop]
     if dyn:
         cfg['knobs'] = dict(
             starts=r.choice([1, 2, 5, 20, 100]),
